@@ -260,6 +260,8 @@ def run(ctx: Ctx):
     calls_ = [n for n in own_nodes(f.node) if isinstance(n, ast.Call) and isinstance(n.func, ast.Attribute) and n.func.attr in ("pop", "clear", "popitem", "update", "setdefault") and ast.unparse(n.func.value).split("[")[0] == "capacity"]
     bad_ = rows + calls_
     ctx.ob("C08-O5", "R27 WRITE-OWNERSHIP", f, "rows of the residual capacity table are never assigned, replaced or removed as a whole (cells are accumulated with +=)", not bad_, f"`{ast.unparse(bad_[0])[:50]}`: the row may already hold reverse arcs of tails that were read earlier; without them the search cannot take flow back and stops below the maximum" if bad_ else "", node=bad_[0] if bad_ else f.node)
+    cells_ = [n for n in own_nodes(f.node) if isinstance(n, (ast.Assign, ast.Delete)) or (isinstance(n, ast.AugAssign) and not isinstance(n.op, ast.Add)) for t in (n.targets if isinstance(n, (ast.Assign, ast.Delete)) else [n.target]) if isinstance(t, ast.Subscript) and isinstance(t.value, ast.Subscript) and isinstance(t.value.value, ast.Name) and t.value.value.id == "capacity"]
+    ctx.ob("C08-O5", "R27 WRITE-OWNERSHIP", f, "cells of the residual capacity table are only ever added to (`+=`): parallel arcs pool, and materialising a reverse arc (`+= 0`) leaves what an arc in that direction brought", not cells_, f"`{ast.unparse(cells_[0])[:50]}`: a plain store throws away the capacity an anti-parallel (or parallel) arc read earlier had put into the cell, and the flow found is not maximum" if cells_ else "", node=cells_[0] if cells_ else f.node)
 
     # O3 loops
     main = [n for n in own_nodes(f.node) if isinstance(n, ast.While) and any(isinstance(c, ast.Call) and ast.unparse(c.func) == "bfs" for c in ast.walk(n.test))]
@@ -443,7 +445,12 @@ def _v_two_notions_of_room(tree):
     M.replace_stmt(g, lambda s: isinstance(s, ast.Assign) and M.src_is(s.targets[0], "residual"), M.stmts("residual = capacity[node][neighbor] - flow[node][neighbor]\nif residual == capacity[node][neighbor]:\n    residual += flow[neighbor][node]"))
 
 
+def _v_reverse_cell_stored(tree):
+    g = M.find_func(tree, "max_flow")
+    M.replace_stmt(g, lambda s: M.src_is(s, "capacity[v][u] += 0"), M.stmts("capacity[v][u] = 0"))
+
 VARIANTS = [
+    M.Variant("materialising the reverse arc stores 0 instead of adding 0: an anti-parallel arc read earlier loses its capacity (seed C08-Y)", FL, _v_reverse_cell_stored, "C08-O5"),
     M.Variant("the search counts reverse flow as room only on arcs without forward flow (half of seed C08-V)", FL, _v_two_notions_of_room, "C08-O2"),
     M.Variant("the build loop gives every listed node a fresh row, dropping reverse arcs entered earlier (seed C08-S)", FL, _v_row_assigned_wholesale, "C08-O5"),
     M.Variant("warm start fills two-hop routes by hand before the first search (seed C08-Q)", FL, _v_warm_start_two_hop_routes, "C08-O3"),
